@@ -144,6 +144,8 @@ BODIES = {
     "pushu_popu": "2838",            # PUSHU A ; POPU A
     "nops": "0000",
     "flags": "9700",                 # SC ; NOP   (callee changes C: RET/RETF keep it, RETI restores the saved F)
+    "set_bp": "32ccec40",            # MV (EC),0x40: the callee moves BP (returns must not address through it)
+    "set_px_py": "32cced1132ccee22",  # MV (ED),0x11 ; MV (EE),0x22
 }
 
 
@@ -179,7 +181,7 @@ def _pairs(args):
                             mem_extra[0xFFFFA] = callee & 0xFF
                             mem_extra[0xFFFFB] = (callee >> 8) & 0xFF
                             mem_extra[0xFFFFC] = (callee >> 16) & 0xFF
-                        nbody = {"empty": 0, "nops": 2, "pushs_pops": 2, "pushu_popu": 2, "flags": 2}[bname]
+                        nbody = {"empty": 0, "nops": 2, "pushs_pops": 2, "pushu_popu": 2, "flags": 2, "set_bp": 1, "set_px_py": 2}[bname]
                         out, regs, mem = execute(code, addr, flags, steps=2 + nbody, mem_extra=mem_extra)
                         n += 1
                         wit = {"pair": kind, "addr": addr, "body": bname, "flags": flags, "imr": imr}
@@ -222,7 +224,7 @@ def run(ctx) -> None:
         "rule": (f"every structural shape for prefix set {sorted(str(p) for p in pres)} at {len(ADDRS_ANY)} addresses "
                  f"({len(ADDRS_CF)} boundary addresses for control-flow opcodes) x the 4 C/Z values; control-flow opcodes additionally with "
                  "all 256 displacement bytes / a 12-value palette per target byte; metadata from get_instruction_info compared with "
-                 "the PC reached by Emulator.execute_instruction; pairs: CALL..RET, CALLF..RETF, IR..RETI x 5 callee bodies x "
+                 "the PC reached by Emulator.execute_instruction; pairs: CALL..RET, CALLF..RETF, IR..RETI x 7 callee bodies (incl. ones that move BP/PX/PY) x "
                  f"{len(ADDRS_CF) + 2} addresses x flags x IMR. distinct_nontrivial = distinct (encoding, address) cases."),
         "samples": [{"bytes": "1a05", "addr": "0xfffe", "flags": [0, 1, 2, 3]}, {"pair": "CALLF", "addr": "0xfffc", "body": "pushs_pops"}],
     })
